@@ -50,6 +50,49 @@ def rule_fold(rep, idx):
                 'literal %s has compile-time value %r, expected %d' % (nm, got, want), nontrivial=False)
 
 
+def rule_fold_effects(rep, idx, rid='R8'):
+    """Folding must not delete an evaluation: X evaluates `and` / `or` left to right and every other operator evaluates both
+    operands, so an operator with a non-constant operand may only be folded when that operand is never evaluated."""
+    rep.rule(rid, 'folding keeps every evaluation the source performs: an operator with a non-constant operand (a call, whose evaluation may '
+             'print, read input or assign globals; a variable) is given a compile-time value only when X never evaluates that operand '
+             '(the right operand of `and` after a false, of `or` after a true left operand), and then with the X value', floor=60)
+    f = idx.func('xcmp::ConstProp::visitPost', 'BinaryOpExpr')
+    where = pos(f.node) + ' xcmp::ConstProp::visitPost(BinaryOpExpr&)'
+    for op in BINOPS:
+        for c in (0, 1, 2):
+            for side in ('left', 'right'):
+                for kind in ('call', 'var'):
+                    X = XModel(idx)
+                    e = X.call('f', [X.num(1)]) if kind == 'call' else X.var('v')
+                    k = X.num(c)
+                    node = X.binop(op, k, e) if side == 'left' else X.binop(op, e, k)
+                    try:
+                        X.const_prop(node)
+                    except Thrown as t_:
+                        rep.add(rid, '%s:const %d on the %s,%s' % (op, c, side, kind), False, where, 'folding fails: %s' % t_.what)
+                        continue
+                    got = node.fields.get('constValue')
+                    key = '%s:const %d on the %s,%s' % (op, c, side, kind)
+                    if got is None:
+                        rep.add(rid, key, True, where, 'not folded', nontrivial=False)
+                        continue
+                    if kind == 'var':
+                        # reading a variable has no effect: folding is legal iff the value is the same for every value of the variable
+                        okv = isinstance(got, IV) and got.concrete() and all(X.meaning(node, {'v': v}) == got.lo for v in D)
+                        rep.add(rid, key, okv, where, 'folded to %r, which is the X value for every value of v' % (got,) if okv else
+                                '(%s) is folded to %r, but its value depends on v' % (X.show(node), got))
+                        continue
+                    # folded although an operand is not constant: legal only if X would not evaluate that operand
+                    skipped = side == 'left' and ((op == 'AND' and c == 0) or (op == 'OR' and c != 0))
+                    want = 0 if op == 'AND' else c
+                    ok = skipped and isinstance(got, IV) and got.concrete() and got.lo == want
+                    rep.add(rid, key, ok, where,
+                            ('folded to %r; X does not evaluate the %s here and the value is %d' % (got, kind, want)) if ok else
+                            ('(%s) is folded to %r although the %s operand is evaluated at run time: its effects (output, input, assignments '
+                             'in a called function) and its value are lost' % (X.show(node) if kind != 'call' else
+                                                                               ('%d %s f(1)' % (c, op) if side == 'left' else 'f(1) %s %d' % (op, c)), got, kind)))
+
+
 def operand_shapes(X, name):
     """The classes of operands the rewriting code can distinguish: constants (zero / non-zero), variables, strings, calls, operators."""
     return [('var', lambda: X.var(name)), ('const0', lambda: X.num(0)), ('const', lambda: X.num(2)),
@@ -302,9 +345,28 @@ def run(rep, tier):
     rep.assumptions = ['and/or/~ are applied to truth values (property quantifier)',
                        'agreement with the *run-time code sequence* where a subtraction in < wraps is not decided (documented gap)']
     rule_fold(rep, idx)
+    rule_fold_effects(rep, idx)
     rule_rewrite(rep, idx)
     rule_overflow(rep, idx)
     from . import c01
     c01.rule_register_discipline(rep, idx, 'R4')
     rule_val(rep, idx)
     rule_genconst(rep, idx)
+    # R7: constants inside a larger, non-constant expression (import of the template execution of C01-R11 for the shapes with a constant)
+
+    class _OnlyConstShapes(c01._Rename):
+        def rule(self, rid, text, floor=0, floor_reason=''):
+            if rid == 'R11':
+                self.rep.rule('R7', 'a constant inside a larger non-constant expression: executing the instruction template generated for every '
+                              'operator over operands of the shapes  c, x+c, x-c, c-x  leaves the X meaning in areg for every value of x in the '
+                              'ordering domain (import of C01-R11 restricted to shapes that contain a constant)', floor=50)
+
+        def add(self, rule, key, ok, where='', detail='', nontrivial=True, data=None):
+            if rule == 'R11' and any(k in key for k in ('num', 'subc', 'addc', 'csub')):
+                return self.rep.add('R7', key, ok, where, detail, nontrivial, data)
+            return ok
+
+        def undecided(self, rule, key, why, where=''):
+            if rule == 'R11' and any(k in key for k in ('num', 'subc', 'addc', 'csub')):
+                return self.rep.undecided('R7', key, why, where)
+    c01.rule_templates(_OnlyConstShapes(rep, {}), idx)
